@@ -130,6 +130,13 @@ type WithAnon struct {
 	N int
 }
 
+// InnerG has fields named like the getters of Inner (C and PB).
+type InnerG struct {
+	A  int
+	C  int
+	PB string
+}
+
 type WithAnon2 struct {
 	Pub struct {
 		X int64
@@ -211,6 +218,25 @@ type T struct {
 }
 `
 
+// OtherHomeSrc is a package that has the same NAME as the setup file's package (home) but another
+// path; it is imported under the alias oh.
+const OtherHomeSrc = `package home
+
+type Rec struct {
+	A      int
+	hidden int
+	B      string
+}
+
+func (r *Rec) SetHidden(v int) { r.hidden = v }
+
+type Rec2 struct {
+	A      int64
+	hidden int
+	B      string
+}
+`
+
 // KnownPkgs maps the qualifier used in home-context type expressions to the import it needs.
 var KnownPkgs = []struct{ Qual, Alias, Path string }{
 	{"ext", "", ModulePath + "/ext"},
@@ -219,12 +245,16 @@ var KnownPkgs = []struct{ Qual, Alias, Path string }{
 	{"lib", "", ModulePath + "/lib/v2"},
 	{"am", "am", ModulePath + "/a/model"},
 	{"bm", "bm", ModulePath + "/b/model"},
+	{"oh", "oh", ModulePath + "/other/home"},
 }
 
 // LocalZooSrc holds the local named types of the home package (ordinary build).
 const LocalZooSrc = `package home
 
-import "example.com/m/tr"
+import (
+	"example.com/m/ext"
+	"example.com/m/tr"
+)
 
 type LInt int
 type LStr string
@@ -257,6 +287,16 @@ type LInner2 struct {
 }
 
 type LEmpty struct{}
+
+// LForeign is a local type whose underlying struct (and its unexported member) comes from package ext.
+type LForeign ext.Inner
+
+// LInnerG has fields named like the getters of LInner (C and PB).
+type LInnerG struct {
+	A  int
+	C  int
+	PB string
+}
 
 type LIDs []int
 
@@ -358,4 +398,9 @@ var Alphabet = []TypeAtom{
 	{"am.T", "", "struct-layout-alias"},
 	{"bm.T", "", "struct-layout-alias"},
 	{"[]lib.LibInt", "", "slice-named-layout"},
+	{"oh.Rec", "", "struct-layout-same-package-name"},
+	{"oh.Rec2", "", "struct-layout-same-package-name"},
+	{"LForeign", "", "struct-local-foreign-underlying"},
+	{"LInnerG", "", "struct-local-getter-names"},
+	{"ext.InnerG", "InnerG", "struct-imported-getter-names"},
 }
